@@ -31,6 +31,10 @@ WidthCands == {0, 1, 2, 3, 4, 5, 6, 7, 8, 12, 16, MaxW \div 4, MaxW \div 2, MaxW
 Deltas     == {0, 1, 2}          \* count = wd*wd + delta - 1  (so -1, 0, +1)
 SizeDefects  == {"none", "short", "long", "empty"}
 OrderDefects == {"none", "row", "col"}
+\* an order defect is one inversion: along a row / column `oline` of the original quadrant the namespace
+\* at position opos + 1 is smaller than the one at opos (every line, every position for ODS width <= 8)
+OLines == 0..7
+OPoss  == 0..6
 
 Count(wd, d) == IF wd * wd + d >= 1 THEN wd * wd + d - 1 ELSE 0
 
@@ -67,9 +71,12 @@ Applicable(s) ==
     LET n == Count(s.wd, s.d)
         odsw == IF s.api = "new" THEN s.wd \div 2 ELSE s.wd IN
     /\ s.size # "none" => n >= 1
-    /\ s.order # "none" => (odsw >= 2 /\ s.d = 1)
+    /\ s.order # "none" => (odsw >= 2 /\ s.d = 1 /\ s.oline < odsw /\ s.opos < odsw - 1
+                             /\ (odsw > 8 => (s.oline = 0 /\ s.opos \in {0, 1})))
+    /\ s.order = "none" => (s.oline = 0 /\ s.opos = 0)
 
-Shapes == {s \in [api : {"new", "from_ods"}, wd : WidthCands, d : Deltas, size : SizeDefects, order : OrderDefects] :
+Shapes == {s \in [api : {"new", "from_ods"}, wd : WidthCands, d : Deltas, size : SizeDefects, order : OrderDefects,
+                  oline : OLines, opos : OPoss] :
              Applicable(s) /\ ~(s.size # "none" /\ s.order # "none")}
 
 \* ---- erasure patterns
